@@ -298,13 +298,16 @@ def typeCheckFrom (st : TState) (b : List Stmt) : Except TypeErr TState :=
   | .error e => .error e
   | .ok () => typeFold st b
 
+/-- The travelers `pipeline.Start` delivers for a compiled traversal (C01's left fold); the empty
+    statement list compiles to an empty pipeline whose output channel is closed at once. -/
+def travelersOf (numOf : String â†’ Option Int) (g : AGraph) (stmts : List Stmt) : List Traveler :=
+  if stmts.isEmpty then [] else evalFrom numOf g {} [Traveler.seed] stmts
+
 /-- Direct traversal: `Compile` + `pipeline.Run` (C01's fold) + `Convert`. -/
 def direct (numOf : String â†’ Option Int) (g : AGraph) (stmts : List Stmt) : Except TypeErr (List Row) :=
   match typeCheck stmts with
   | .error e => .error e
-  | .ok st =>
-    if stmts.isEmpty then .ok []
-    else .ok ((evalFrom numOf g {} [Traveler.seed] stmts).map (convertL g st))
+  | .ok st => .ok ((travelersOf numOf g stmts).map (convertL g st))
 
 inductive ResumeErr where
   | notFound | compile (e : TypeErr)
@@ -328,8 +331,6 @@ def submit {Îº : Type} (numOf : String â†’ Option Int) (g : AGraph) (s : Store Î
     (sums : List Îº) (stmts : List Stmt) : Except TypeErr (Store Îº) :=
   match typeCheck stmts with
   | .error e => .error e
-  | .ok st =>
-    let ts := if stmts.isEmpty then [] else evalFrom numOf g {} [Traveler.seed] stmts
-    .ok (s.spool graph id sums st (ts.map marshal))
+  | .ok st => .ok (s.spool graph id sums st ((travelersOf numOf g stmts).map marshal))
 
 end Grip.C11
